@@ -364,6 +364,12 @@ pub enum Fault {
     EmptyPayload,
     /// One extra byte appended.
     Trailing(u8),
+    /// Well-framed message of the same type in which opaque field `.0` (0 = first, 1 = second) is the
+    /// correct payload FOLLOWED BY surplus bytes (`.1`: 0 = one zero byte, 1 = four bytes, 2 = a copy of
+    /// itself). The payload no longer decodes (leftover bytes), so the message is undecodable.
+    FieldExtend(u8, u8),
+    /// Same, the field shortened by its last byte (length prefix adjusted).
+    FieldTruncate(u8),
 }
 
 impl Fault {
@@ -382,6 +388,8 @@ impl Fault {
             Fault::Corrupt(..) => "corrupt",
             Fault::EmptyPayload => "empty_payload",
             Fault::Trailing(_) => "trailing",
+            Fault::FieldExtend(..) => "field_extend",
+            Fault::FieldTruncate(_) => "field_truncate",
         }
     }
 
@@ -412,6 +420,40 @@ impl Fault {
                 let mut b = good.clone();
                 b.push(*x);
                 Some(b)
+            }
+            Fault::FieldExtend(..) | Fault::FieldTruncate(_) => {
+                let m = PingPongMessage::get_decoded(good).ok()?;
+                let edit = |f: Vec<u8>| -> Option<Vec<u8>> {
+                    let mut f = f;
+                    match self {
+                        Fault::FieldExtend(_, 0) => f.push(0),
+                        Fault::FieldExtend(_, 1) => f.extend_from_slice(&[0xa5; 4]),
+                        Fault::FieldExtend(..) => {
+                            if f.is_empty() {
+                                f.push(0x11)
+                            } else {
+                                let c = f.clone();
+                                f.extend_from_slice(&c)
+                            }
+                        }
+                        _ => {
+                            f.pop()?;
+                        }
+                    }
+                    Some(f)
+                };
+                let idx = match self {
+                    Fault::FieldExtend(i, _) | Fault::FieldTruncate(i) => *i,
+                    _ => 0,
+                };
+                let e = match (m, idx) {
+                    (PingPongMessage::Initialize { verifier_share }, 0) => PingPongMessage::Initialize { verifier_share: edit(verifier_share)? },
+                    (PingPongMessage::Continue { verifier_message, verifier_share }, 0) => PingPongMessage::Continue { verifier_message: edit(verifier_message)?, verifier_share },
+                    (PingPongMessage::Continue { verifier_message, verifier_share }, 1) => PingPongMessage::Continue { verifier_message, verifier_share: edit(verifier_share)? },
+                    (PingPongMessage::Finish { verifier_message }, 0) => PingPongMessage::Finish { verifier_message: edit(verifier_message)? },
+                    _ => return None,
+                };
+                e.get_encoded().ok()
             }
             Fault::EmptyPayload => {
                 let m = PingPongMessage::get_decoded(good).ok()?;
@@ -485,6 +527,12 @@ fn enumerate_faults(wires: &[Vec<u8>], k: usize, gran: Gran) -> Vec<Fault> {
     v.push(Fault::EmptyPayload);
     v.push(Fault::Trailing(0));
     v.push(Fault::Trailing(0x5a));
+    for field in 0..2u8 {
+        for how in 0..3u8 {
+            v.push(Fault::FieldExtend(field, how));
+        }
+        v.push(Fault::FieldTruncate(field));
+    }
     match gran {
         Gran::Full | Gran::Full3 => {
             for n in 0..len {
@@ -714,7 +762,7 @@ where
                     (Ok(a), Ok(b)) => kind_of(&a) == kind_of(&b),
                     _ => false,
                 };
-                let demanded = su.mode == Mode::Immediate || !same_kind || matches!(fault, Fault::EmptyPayload);
+                let demanded = su.mode == Mode::Immediate || !same_kind || matches!(fault, Fault::EmptyPayload | Fault::FieldExtend(..) | Fault::FieldTruncate(_));
                 if !demanded {
                     ctx.count("faults_payload_only_no_demand");
                 }
